@@ -418,7 +418,7 @@ func c06Spec() s1Spec {
 
 func burstProfile(name string) *vh.Profile {
 	return &vh.Profile{Name: name, Executors: []int{vh.ExecDeferred}, MinLen: 1, MaxLen: 10, MaxKeys: 6,
-		Ops: map[string]int{"burst": 6, "set": 6, "invalidate": 2, "compute": 2, "runtasks": 3, "quiesce": 2, "getifpresent": 2, "setmaximum": 1, "iter": 1}}
+		Ops: map[string]int{"burst": 6, "set": 6, "invalidate": 2, "compute": 2, "runtasks": 3, "quiesce": 2, "getifpresent": 2, "setmaximum": 1, "iter": 1, "invalidateall": 2}}
 }
 
 func burstSpec(prop, test string, facets vh.Facet, needBound bool) s1Spec {
@@ -426,7 +426,7 @@ func burstSpec(prop, test string, facets vh.Facet, needBound bool) s1Spec {
 	p.NeedBound = needBound
 	return s1Spec{
 		Prop: prop, Test: test,
-		Rule: "short scripts (1-10 actions) with a queueing executor in which 'burst' actions issue 2050-2300 writes over 40-100 keys without letting the executor run, so the write buffer (2048 events on this machine) fills up and writers fall back to caller-runs maintenance; " +
+		Rule: "short scripts (1-10 actions) with a queueing executor in which 'burst' actions issue 2050-2300 writes over 40-100 keys without letting the executor run, so the write buffer (2048 events on this machine) fills up and writers fall back to caller-runs maintenance; InvalidateAll over more than 1024 entries (its one-by-one tail once the write buffer is half full); " +
 			"the model is reconciled write by write; at every quiesce action and at the end the quiescence oracles of the property are checked (bound / bookkeeping incl. the structural audit / exactly-once ledger); non-trivial = at least one burst",
 		Profile: p, Facets: facets | vh.FPanic, FinalQuiesce: true,
 		NonTrivial: func(r *vh.Runner) bool { return r.St.Bursts > 0 },
